@@ -24,7 +24,11 @@ def run(ctx):
         # scheduler killed while its jobs hold tokens; the restarted scheduler must reclaim them (TokenFile.watch)
         {"scens": [k for k in wcat.kill_scenarios() if "token" in k["name"]], "policies": ("FIFO",), "kills": {"restart_bound": 0}},
         {"scens": [k for k in wcat.kill_scenarios() if "token" in k["name"]], "policies": ("LIFO",), "kills": {"restart_bound": 0}},
+        # the holder fails / is killed and is launched again by its scheduler while a second process has jobs on the token
+        {"scens": wcat.token_relaunch_scenarios(), "policies": wcat.POL_PROC[:2] + ("FIFO",), "bound": 1, "demote": True, "cap": 60000},
     ]
+    for pol in ("FIFO", "Q:1,2,job", "Q:2,1,job"):
+        plan.append({"scens": wcat.jobkill_relaunch_scenarios(), "policies": (pol,), "kills": {"restart_bound": 0}})
     return run_w(ctx, PROPERTY, plan,
                  "the C08 workloads; endings: success, failure, aborted start (LockError), another process holding the token; at quiescence: no hang "
                  "(a waiting job whose request fits was launched), no token file left, available == total in every live process, no library thread "
